@@ -13,6 +13,7 @@ from typing import Optional, List, Dict, Any
 from .index import Index, AnchorMissing, Unrecognised
 
 VERIF = os.path.dirname(os.path.dirname(os.path.abspath(__file__)))
+SMALL_LINES = 4     # a function that differs from its reference form in more lines than this counts as rewritten
 
 
 def norm_stmt(node_or_text) -> str:
@@ -80,12 +81,60 @@ class Ctx:
         finally:
             self._only = old
 
-    def ob(self, where: str, what: str, ok: bool, detail: str = "", key: Optional[str] = None, rule: Optional[str] = None):
-        """Record one obligation. ok=False is a positively established violation."""
+    def function_status(self, where: str) -> str:
+        """How the function a construct lies in relates to its form on the reference tree: 'same' (identical up to the comparison normal form and spelling),
+        'small' (differs by a small edit: at most two substituted expressions / operators / tokens, a deleted statement, a new early exit), 'rewritten' (anything
+        larger), 'new' (no reference form), '' (the construct is not inside a function)."""
+        m = re.match(r"(\S+?\.py):\d+ (\S+)", where)
+        if not m:
+            return ""
+        cache = self.__dict__.setdefault("_fn_status", {})
+        key = (m.group(1), m.group(2))
+        if key in cache:
+            return cache[key]
+        from . import normalize
+        from .through_time import small_edits
+        mod = m.group(1)[:-3].replace("/", ".")
+        if mod.endswith(".__init__"):
+            mod = mod[: -len(".__init__")]
+        st = ""
+        try:
+            mi = self.index.modules.get(mod)
+            fi = mi.functions.get(m.group(2)) if mi is not None else None
+            if fi is not None and not isinstance(fi.node, ast.Lambda):
+                ref = normalize.load_table().get(mod, {}).get(m.group(2))
+                if ref is None or not ref.get("src"):
+                    st = "new"
+                elif ref.get("digest") == normalize.digest(fi.node):
+                    st = "same"
+                else:
+                    from .spelling import changed_lines
+                    n = changed_lines(ref["src"], fi.node)
+                    st = "same" if n == 0 else ("small" if n <= int(os.environ.get("BNPSA_SMALL_LINES", str(SMALL_LINES))) else "rewritten")
+        except Exception:
+            st = ""
+        cache[key] = st
+        return st
+
+    def ob(self, where: str, what: str, ok: bool, detail: str = "", key: Optional[str] = None, rule: Optional[str] = None, definite: bool = False):
+        """Record one obligation.  ok=False is a violation when the clause's construct lies in a function that still has its confirmed form or differs from it by a
+        small edit (or when the rule positively recognised a wrong form: definite=True).  If the function was REWRITTEN since the reference tree, a clause that compares
+        a construct with its confirmed form cannot tell a new correct formulation from a wrong one: that is 'cannot follow' (analysis error, exit 2), not a violation."""
         flt = getattr(self, "_only", None)
         if flt and not any(p in where or p in what for p in flt):
             return ok
         rule = rule or self.current_rule
+        if not ok and not definite and os.environ.get("BNPSA_STRICT_FORMS") != "1" and not rule.endswith(("-T1", "-T2")):
+            st = self.function_status(where)
+            if st in ("rewritten", "new"):
+                rec = {"rule": rule, "where": where, "what": what, "verdict": "UNDECIDED (function rewritten)"}
+                if detail:
+                    rec["detail"] = detail
+                self.obligations.append(rec)
+                msg = f"{rule}: Unrecognised: {where} was rewritten since the reference tree (not a small edit) and the clause `{what[:120]}` no longer matches the confirmed form: cannot follow"
+                if msg not in self.analysis_errors:
+                    self.analysis_errors.append(msg)
+                return ok
         rec = {"rule": rule, "where": where, "what": what, "verdict": "holds" if ok else "VIOLATED"}
         if detail:
             rec["detail"] = detail
@@ -147,6 +196,9 @@ class Ctx:
             out_lines.append(f"  rule={v['rule']} at {v['where']}: {v['what']}" + (f" -- {v['detail']}" if v.get("detail") else ""))
         for e in self.analysis_errors:
             out_lines.append(f"ANALYSIS-ERROR property={self.prop} {e}")
+        for n in self.notes:
+            if "-T2 " in n:
+                out_lines.append(f"NOTE property={self.prop} {n[:400]}")
         n_ob = len(self.obligations)
         n_ok = sum(1 for o in self.obligations if o["verdict"] == "holds")
         distinct = len({(o["rule"], o["where"], o["what"]) for o in self.obligations})
